@@ -1020,13 +1020,6 @@ impl Callbacks for Cb {
                         nfn += 1;
                     }
                 }
-                DefKind::Closure => {
-                    if let Some(r) = cx.fn_record(ldid, "closure") {
-                        fns.push_str(&r);
-                        fns.push('\n');
-                        nfn += 1;
-                    }
-                }
                 DefKind::Const { .. } | DefKind::AssocConst { .. } => {
                     if let Some(r) = cx.const_record(ldid) {
                         consts.push(r);
@@ -1058,6 +1051,16 @@ impl Callbacks for Cb {
                     impls.push(s);
                 }
                 _ => {}
+            }
+        }
+        // closures are body owners but not crate-item definitions
+        for ldid in tcx.hir_body_owners() {
+            if matches!(tcx.def_kind(ldid.to_def_id()), DefKind::Closure) {
+                if let Some(r) = cx.fn_record(ldid, "closure") {
+                    fns.push_str(&r);
+                    fns.push('\n');
+                    nfn += 1;
+                }
             }
         }
         // external ADTs requested by the rules
